@@ -13,7 +13,7 @@ RULE = (
     "unique ids; column permutation; non-default row labels) whose COMPLETE positions are drawn per axis from {well "
     "inside, exactly 0, exactly dim-1, dim, dim-0.5, dim+0.5, <= -1, far outside} with non-zero shifts (so x alone and "
     "x+shift disagree about insideness). Four filters: out-of-bounds removal (boundary type center/whole, box 1..40 odd "
-    "and even, dimension table as array/DataFrame in any row order), trimming adaptation (1-based [start,end] boxes), "
+    "and even, dimension table as array / DataFrame / text file in any row order), trimming adaptation (1-based [start,end] boxes), "
     "cleaning against reference points (per-tomogram points, radius 0.5..20, in place or not), cleaning by tomogram "
     "masks (per-tomogram or one shared binary mask up to 24^3, particles outside the mask volume, tomograms not "
     "listed). Oracle: the analytic inside-predicate evaluated per particle in the harness (brute force, no KD-tree); "
@@ -87,7 +87,7 @@ def strategy_case(draw):
     if k == "oob":
         c["btype"] = draw(st.sampled_from(["center", "whole", "whole"]))
         c["box"] = draw(st.one_of(st.integers(1, 40), st.integers(1, 8)))
-        c["dims_as"] = draw(st.sampled_from(["array", "frame"]))
+        c["dims_as"] = draw(st.sampled_from(["array", "frame", "file"]))
         c["dims_perm"] = draw(st.integers(0, 10**6))
         c["extra_tomo"] = draw(st.booleans())
     elif k == "trim":
@@ -229,7 +229,14 @@ def run(case):
             rows.append([len(dims) + 3, 30, 30, 30])
         rows = [rows[j] for j in rng.permutation(len(rows))]
         tab = np.array(rows, dtype=float)
-        arg = tab if case["dims_as"] == "array" else pd.DataFrame(tab, columns=["tomo_id", "x", "y", "z"])
+        if case["dims_as"] == "file":
+            np.savetxt("dims.txt", tab, fmt="%d")
+            arg = "dims.txt"
+            if len(tab) == 1:  # a one-line file has three or four numbers; with four it is still the per-tomogram form
+                pass
+        else:
+            arg = tab if case["dims_as"] == "array" else pd.DataFrame(tab, columns=["tomo_id", "x", "y", "z"])
+        out.label(f"dims:{case['dims_as']}")
         out.label(f"btype:{case['btype']}")
         kw = {"boundary_type": case["btype"]}
         if case["btype"] == "whole":
